@@ -365,6 +365,21 @@ def histories(draw, tier="quick"):
     spec["dtype"] = dtype
     # values: sometimes large (outside int16 / float16 range) or fractional, to exercise the conversion rule
     big = draw(st.sampled_from([None, None, 40000, 70000, 3 * 10 ** 9]))
+    near_limit = False
+    if dtype in ("int16", "int32") and draw(st.integers(0, 3)) == 0:
+        # contents a few counts below the limit of the narrow type: any further counting must widen, not wrap
+        lim = 32767 if dtype == "int16" else 2 ** 31 - 1
+        flat = hgen.flat(spec["freq"])
+        flat[0] = lim - draw(st.integers(0, 5))
+        it = iter(flat)
+
+        def refill2(x):
+            return [refill2(y) for y in x] if isinstance(x, list) else next(it)
+
+        spec["freq"] = refill2(spec["freq"])
+        spec["err2"] = None
+        big = None
+        near_limit = True
     if big is not None and dtype == "float32":
         big = min(big, 70000)  # float32 carries integers exactly only up to 2**24
     if big is not None and dtype not in ("int16", "float16") and not (dtype == "int32" and big > 2 ** 31 - 1):
@@ -379,6 +394,10 @@ def histories(draw, tier="quick"):
         if spec["err2"] is not None:
             spec["err2"] = None
     ops = draw(st.lists(one_op(), min_size=1, max_size=10 if tier == "thorough" else 6))
+    if near_limit:
+        # sums *within* the narrow type (histogram + histogram of the same type, merging) follow numpy and may
+        # overflow there: only counting / weighting / scaling / conversions are exercised next to the limit
+        ops = [o for o in ops if o[0] not in ("add", "iadd", "add_shifted", "merge")] or [["fill_n", [[0.0, 0.0]], "int"]]
     if dtype in ("int32", "int64", "float32", "float64", "float128") and draw(st.integers(0, 3)) == 0 and max(abs(x) for x in hgen.flat(spec["freq"])) <= 1000:
         # squared errors beyond the range of the narrow types while the contents fit
         k = draw(st.sampled_from([500, 40000]))
